@@ -137,13 +137,15 @@ def and (k : KState) (o : List PyKey) : KState := ofList (o.filter fun x => k.co
 /-- `self | other`: `self._from_iterable(e for s in (self, other) for e in s)` -/
 def or (k : KState) (o : List PyKey) : KState := ofList (k.iterObjs ++ o)
 
-/-- `self - other`: `other` becomes a `Variables` through `_from_iterable` unless it is a Set;
-    `self._from_iterable(value for value in self if value not in other)` -/
-def sub (k : KState) (o : List PyKey) : KState := ofList (k.iterObjs.filter fun x => !(memO o x))
+/-- `self - other`: `other` becomes a `Variables` through `_from_iterable` unless it is a Set (membership in it is
+    the same `==` lookup either way); `self._from_iterable(value for value in self if value not in other)` -/
+def sub (k : KState) (o : List PyKey) : KState := ofList (k.iterObjs.filter fun x => !((ofList o).count x))
 
-/-- `self ^ other`: `(self - other) | (other - self)` -/
+/-- `self ^ other`: `other = self._from_iterable(other)` unless it is a Set, then `(self - other) | (other - self)`;
+    `other - self` iterates the OBJECTS the converted `other` holds (an integral float sitting on its own index has
+    become the `int` index there) -/
 def xor (k : KState) (o : List PyKey) : KState :=
-  ofList ((k.sub o).iterObjs ++ (ofList (o.filter fun x => !(k.count x))).iterObjs)
+  ofList ((k.sub o).iterObjs ++ (ofList ((ofList o).iterObjs.filter fun x => !(k.count x))).iterObjs)
 
 /-! ### the extended object-level alphabet -/
 
